@@ -628,7 +628,7 @@ func ownBuilders(t *engine.T, fms map[string]*family, p digestPair) {
 			expect("own/builder/interleaved-builders-do-not-verify", shape+" A", aA, nil, cA, 2)
 			expect("own/builder/interleaved-builders-do-not-verify", shape+" B", aB, nil, cB, 2)
 			// the finished builder's content buffer now carries another content and goes to the next constructor
-			copy(bufA, contentOf(21+64)[64:])
+			copy(bufA, contentOf(21 + 64)[64:])
 			cC := append([]byte{}, bufA...)
 			var aC []byte
 			if t.Guard("own/builder/signed", func() {
@@ -673,7 +673,9 @@ func ownBuilders(t *engine.T, fms map[string]*family, p digestPair) {
 			}
 			scribble(buf) // the content was encrypted by the constructor; the buffer is the caller's again
 			sess := pkcs7.DefaultSession{}
-			wrap := func(cert *smx509.Certificate, key []byte) ([]byte, error) { return sess.EncryptdDataKey(key, cert, nil) }
+			wrap := func(cert *smx509.Certificate, key []byte) ([]byte, error) {
+				return sess.EncryptdDataKey(key, cert, nil)
+			}
 			opens := func(key string, art []byte, id *ident, want bool) {
 				pt, err := p7Decrypt(art, id.cert, id.key)
 				t.Eval(1)
@@ -882,7 +884,9 @@ func builderErrors(t *engine.T, fms map[string]*family, p digestPair) {
 		shape := fmt.Sprintf("EnvelopedData+SignedAndEnvelopedData/%s/%s failing calls in between", p.name, cs.name)
 		refuse := fmt.Errorf("key wrapping refused")
 		sess := pkcs7.DefaultSession{}
-		wrap := func(cert *smx509.Certificate, key []byte) ([]byte, error) { return sess.EncryptdDataKey(key, cert, nil) }
+		wrap := func(cert *smx509.Certificate, key []byte) ([]byte, error) {
+			return sess.EncryptdDataKey(key, cert, nil)
+		}
 		ed, err := pkcs7.NewEnvelopedData(cs.c, content)
 		if err != nil {
 			t.Fail("own/builder/error", "%s: %v", shape, err)
